@@ -332,6 +332,7 @@ pub fn minimise(args: &Args, full: &Spec, differing: usize) -> Minimised {
         Box::new(|p| p.pid = crate::sim_entropy::REF_PID),
         Box::new(|p| p.repeat = 0),
         Box::new(|p| p.stall.clear()),
+        Box::new(|p| p.linger.clear()),
     ];
     for simplify in &simplifications {
         let mut cand = spec.clone();
